@@ -34,10 +34,10 @@ def headerBytes (s : Snap) : Bytes :=
 
 /-- the EtherType `write_serialization` stores: the inner PDU's when it has one, the stored value otherwise -/
 def tagFor (cx : Ctx) (s : Snap) : Nat :=
-  match cx.innerCls with
+  match cx.inners.head? with
   | none => s.ethType
-  | some cls =>
-    let flag := Tags.etherOfPduType (Tags.pduTypeOf cls)
+  | some i =>
+    let flag := etherTagOf i
     if flag != 0 then flag else s.ethType
 
 /-- `SNAP::write_serialization` -/
